@@ -209,8 +209,9 @@ def run_case(case):
     in_keys = {(a["res_seq"], a["name"]) for a in in_atoms}
     # OP1/OP2 are alternate names of O1P/O2P
     for a in in_atoms:
-        if a["name"] in ("OP1", "OP2"):
-            in_keys.add((a["res_seq"], {"OP1": "O1P", "OP2": "O2P"}[a["name"]]))
+        if case.get("kind") == "strand":
+            in_keys.add((a["res_seq"],
+                         build.strand_canonical_name(a["name"])))
     viol, cells = [], set()
     stages = []
     state = {"bm": None, "n_debump": 0}
@@ -287,7 +288,8 @@ def enumerate_cases(tier, seed):
     cases = [c for c in c04.enumerate_cases(tier, seed) if "window" not in c]
     strands = [(["DA", "DT", "DG", "DC"], "legacy"),
                (["RA", "RU", "RG", "RC"], "legacy"),
-               (["DC", "DA"], "modern"), (["RG", "RU"], "modern")]
+               (["DC", "DA"], "modern"), (["RG", "RU"], "modern"),
+               (["DT", "DG"], "star"), (["RU", "RA"], "star")]
     for seq, naming in strands:
         for ff in ("AMBER", "CHARMM"):
             cases.append({"kind": "strand", "seq": seq, "naming": naming,
